@@ -5,12 +5,18 @@ open LokiModel.Fir LokiModel.C33 Sexp
 /-- `(outline prog inputs flag)` → `(result (classes…) prog')`: the known-finding classes the regions of the program fall in and
 the program after `outline_pragma_regions` on the main unit (new units appended); `excluded` instead of the program when a
 region is outside the covered class (CALL inside the region, pragma override of an array, ASSOCIATE in or around a region) -/
+def outlineResp (prog : Sexp) : Option Sexp := do
+  let p ← decProgram prog
+  let r := outlineProgram p
+  pure (list [atom "result", list (r.classes.map atom),
+    if r.excluded then atom "excluded" else encProgram r.prog])
+
 def step : Sexp → Option Sexp
-  | list (atom "outline" :: prog :: _) => do
-      let p ← decProgram prog
-      let r := outlineProgram p
-      pure (list [atom "result", list (r.classes.map atom),
-        if r.excluded then atom "excluded" else encProgram r.prog])
+  | list [atom "outline", prog, _, _, cs] =>
+      -- respelled variant (letter case of every name occurrence randomised in the text handed to Loki): `sorted(key=str)`
+      -- then orders the dummies by the spelling of their first occurrence, which the model does not follow — oracle only
+      if cs == atom "0" then outlineResp prog else some (list [atom "case-variant", atom "oracle-only"])
+  | list (atom "outline" :: prog :: _) => outlineResp prog
   | _ => none
 
 def main : IO _root_.Unit := driverMain step
